@@ -9,8 +9,11 @@ Only statement-position calls are inlined:
 
     x = self._h(a, b)          a, b = self._h(...)          self._h(...)          x = _h(...)          return _h(...)
 
-and only when the helper is *single-exit*: its body ends in the only `return` it contains (or it contains none), it is not a
-generator, not async, has no *args/**kwargs, and every argument can be bound by position or keyword. The inlined text is
+and only when the helper is not a generator, not async, has no *args/**kwargs and no nested functions, and every argument can
+be bound by position or keyword. A helper with early returns is first rewritten into an if/else tree without `return`
+(`eliminate_returns`: the statements after an `if` that returns are moved into the branches that fall through); a return
+inside a loop, or inside a try/with whose other paths fall through, is not supported and the call is left alone. The inlined
+text is
 
     <param> = <arg>            (omitted when the argument is the same name; a parameter the helper never rebinds and that is
                                 passed a plain name is substituted instead)
@@ -28,6 +31,42 @@ from dataclasses import replace
 from typing import Callable
 
 from .source import FuncInfo, walk_no_nested
+
+
+def clone(n):
+    """deep copy of an AST (sub)tree that does not follow the `_parent` back-links the source model adds (copy.deepcopy would
+    copy the whole module through them); positions and the `_qualname` mark of nested functions are kept"""
+    if isinstance(n, ast.AST):
+        new = type(n)()
+        for f in n._fields:
+            if hasattr(n, f):
+                setattr(new, f, clone(getattr(n, f)))
+        for a in ("lineno", "col_offset", "end_lineno", "end_col_offset", "_qualname"):
+            if hasattr(n, a):
+                setattr(new, a, getattr(n, a))
+        return new
+    if isinstance(n, list):
+        return [clone(x) for x in n]
+    return n
+
+
+_KNOWN: dict[str, set[str]] | None = None
+
+
+def known_functions() -> dict[str, set[str]]:
+    """module name -> qualified names of the functions that existed when the rules were confirmed (tools/mkknown.py)"""
+    global _KNOWN
+    if _KNOWN is None:
+        import json
+        import os
+
+        path = os.path.join(os.path.dirname(os.path.abspath(__file__)), "known_functions.json")
+        try:
+            with open(path, encoding="utf-8") as fh:
+                _KNOWN = {k: set(v) for k, v in json.load(fh).items()}
+        except OSError:
+            _KNOWN = {}
+    return _KNOWN
 
 
 def _local_names(fn: ast.AST) -> set[str]:
@@ -49,22 +88,89 @@ def _all_names(fn: ast.AST) -> set[str]:
     return {n.id for n in ast.walk(fn) if isinstance(n, ast.Name)} | _local_names(fn)
 
 
-def single_exit(h: ast.AST) -> bool:
+def inlinable(h: ast.AST) -> bool:
     if not isinstance(h, ast.FunctionDef):
         return False
     a = h.args
     if a.vararg or a.kwarg or a.posonlyargs:
         return False
-    rets = [n for n in walk_no_nested(h) if isinstance(n, ast.Return)]
     if any(isinstance(n, (ast.Yield, ast.YieldFrom, ast.Await, ast.Global, ast.Nonlocal)) for n in walk_no_nested(h)):
         return False
-    if any(isinstance(n, (ast.FunctionDef, ast.AsyncFunctionDef, ast.Lambda, ast.ClassDef)) for n in ast.walk(h) if n is not h):
+    if any(isinstance(n, (ast.FunctionDef, ast.AsyncFunctionDef, ast.ClassDef)) for n in ast.walk(h) if n is not h):
         return False  # closures over helper locals: renaming would have to follow them
-    if len(rets) > 1:
-        return False
-    if rets and h.body[-1] is not rets[0]:
-        return False
+    # lambdas are fine (the renaming visits their bodies) unless one of their own parameters shadows a name of the helper
+    own = _local_names(h)
+    for n in ast.walk(h):
+        if isinstance(n, ast.Lambda) and ({a.arg for a in ast.walk(n.args) if isinstance(a, ast.arg)} & own):
+            return False
     return True
+
+
+def single_exit(h: ast.AST) -> bool:
+    if not inlinable(h):
+        return False
+    rets = [n for n in walk_no_nested(h) if isinstance(n, ast.Return)]
+    return len(rets) <= 1 and (not rets or h.body[-1] is rets[0])  # type: ignore[attr-defined]
+
+
+class _Unsupported(Exception):
+    pass
+
+
+def _has_return(st: ast.AST) -> bool:
+    return any(isinstance(n, ast.Return) for n in walk_no_nested(st)) or isinstance(st, ast.Return)
+
+
+def eliminate_returns(stmts: list[ast.stmt], result: Callable[[ast.AST | None, ast.stmt], list[ast.stmt]]) -> tuple[list[ast.stmt], bool]:
+    """rewrite a helper body so that it has no `return`: `return v` becomes result(v) and the statements that followed an `if`
+    containing a return are moved into the branches that fall through (early returns become an if/else tree). Returns the new
+    statements and whether every path through them ends in a (former) return or a raise. Raises _Unsupported for a return
+    inside a loop / match, or inside a try / with whose other paths fall through."""
+    out: list[ast.stmt] = []
+    for i, st in enumerate(stmts):
+        if isinstance(st, ast.Return):
+            out += result(st.value, st)
+            return out, True
+        if isinstance(st, ast.Raise):
+            out.append(st)
+            return out, True
+        if not _has_return(st):
+            out.append(st)
+            continue
+        rest = stmts[i + 1:]
+        if isinstance(st, ast.If):
+            b, bx = eliminate_returns(list(st.body) + clone(rest), result)
+            o, ox = eliminate_returns(list(st.orelse) + clone(rest), result)
+            new = ast.If(test=st.test, body=b or [ast.copy_location(ast.Pass(), st)], orelse=o)
+            ast.copy_location(new, st)
+            out.append(new)
+            return out, bx and ox
+        if isinstance(st, ast.Try) and not st.orelse and not st.finalbody:
+            b, bx = eliminate_returns(list(st.body), result)
+            hs = []
+            allx = bx
+            for h in st.handlers:
+                hb, hx = eliminate_returns(list(h.body), result)
+                allx = allx and hx
+                nh = ast.ExceptHandler(type=h.type, name=h.name, body=hb or [ast.copy_location(ast.Pass(), h)])
+                ast.copy_location(nh, h)
+                hs.append(nh)
+            if not allx:
+                raise _Unsupported("return inside try whose other paths fall through")
+            new = ast.Try(body=b, handlers=hs, orelse=[], finalbody=[])
+            ast.copy_location(new, st)
+            out.append(new)
+            return out, True
+        if isinstance(st, ast.With):
+            b, bx = eliminate_returns(list(st.body), result)
+            if not bx:
+                raise _Unsupported("return inside with whose body can fall through")
+            new = ast.With(items=st.items, body=b)
+            ast.copy_location(new, st)
+            out.append(new)
+            return out, True
+        raise _Unsupported(f"return inside {type(st).__name__}")
+    return out, False
 
 
 def _helper_of(fi: FuncInfo, call: ast.Call) -> FuncInfo | None:
@@ -93,9 +199,9 @@ def _expand(fi: FuncInfo, caller_names: set[str], st: ast.stmt, select: Callable
     else:
         return None
     h = _helper_of(fi, call)
-    if h is None or not single_exit(h.node) or not select(h, call, st):
+    if h is None or not inlinable(h.node) or not select(h, call, st):
         return None
-    hn: ast.FunctionDef = copy.deepcopy(h.node)  # type: ignore[assignment]
+    hn: ast.FunctionDef = clone(h.node)  # type: ignore[assignment]
     is_method = h.cls is not None and not any(isinstance(d, ast.Name) and d.id == "staticmethod" for d in hn.decorator_list)
     params = [a.arg for a in hn.args.args]
     if is_method and params:
@@ -121,7 +227,53 @@ def _expand(fi: FuncInfo, caller_names: set[str], st: ast.stmt, select: Callable
     rebinds = {n.id for n in walk_no_nested(hn) if isinstance(n, ast.Name) and isinstance(n.ctx, (ast.Store, ast.Del))}
     helper_locals = _local_names(hn) - set(params) - {"self", "cls"}
     rename: dict[str, str] = {}
+    # a helper local that is bound exactly once, to the same expression the caller binds the same name to (once, earlier, from
+    # names the caller binds once), IS the caller's local: keep the name and drop the helper's duplicate binding
+    same_def: set[str] = set()
+    caller_fn = fi.node
     for nm in sorted(helper_locals):
+        if nm not in caller_names:
+            continue
+        hd = [n for n in walk_no_nested(hn) if isinstance(n, ast.Assign) and len(n.targets) == 1 and isinstance(n.targets[0], ast.Name) and n.targets[0].id == nm]
+        hall = [n for n in walk_no_nested(hn) if isinstance(n, ast.Name) and n.id == nm and isinstance(n.ctx, (ast.Store, ast.Del))]
+        cd = [n for n in walk_no_nested(caller_fn) if isinstance(n, ast.Assign) and len(n.targets) == 1 and isinstance(n.targets[0], ast.Name) and n.targets[0].id == nm]
+        call_stores = [n for n in walk_no_nested(caller_fn) if isinstance(n, ast.Name) and n.id == nm and isinstance(n.ctx, (ast.Store, ast.Del))]
+        if len(hd) == 1 and len(hall) == 1 and len(cd) == 1 and len(call_stores) == 1 and hd[0] in hn.body and cd[0].lineno < st.lineno:
+            # compare after binding the helper's parameters to the call's arguments
+            pmap = {p: bound[p] for p in params if isinstance(bound[p], ast.Name)}
+            hv = clone(hd[0].value)
+            for x in ast.walk(hv):
+                if isinstance(x, ast.Name) and x.id in pmap:
+                    x.id = pmap[x.id].id  # type: ignore[union-attr]
+            free = {x.id for x in ast.walk(hv) if isinstance(x, ast.Name)}
+            stable = all(sum(1 for n in walk_no_nested(caller_fn) if isinstance(n, ast.Name) and n.id == f and isinstance(n.ctx, ast.Store)) <= 1 for f in free)
+            if ast.unparse(hv) == ast.unparse(cd[0].value) and stable:
+                same_def.add(nm)
+                hn.body.remove(hd[0])
+    # a helper local that every return hands back into the caller's local of the same name (`pos, line = h(...)` with
+    # `return pos, ...` in h) may simply BE that local: the caller's value is overwritten by the result anyway. Not when the
+    # caller's value is still needed inside the body through a substituted argument.
+    tg_names: list[str | None] = []
+    if len(targets) == 1 and isinstance(targets[0], ast.Tuple):
+        tg_names = [t.id if isinstance(t, ast.Name) else None for t in targets[0].elts]
+    elif len(targets) == 1 and isinstance(targets[0], ast.Name):
+        tg_names = [targets[0].id]
+    rets = [n for n in walk_no_nested(hn) if isinstance(n, ast.Return)]
+    subst_arg_names = {x.id for p in params if p not in rebinds and isinstance(bound[p], ast.Name) for x in [bound[p]]}
+    handed_back: set[str] = set()
+    for i, tn in enumerate(tg_names):
+        if tn is None or tn not in helper_locals or tn in subst_arg_names:
+            continue
+        def elem(r: ast.Return, i=i):
+            v = r.value
+            if len(tg_names) == 1:
+                return v
+            return v.elts[i] if isinstance(v, ast.Tuple) and len(v.elts) == len(tg_names) else None
+        if rets and all(isinstance(elem(r), ast.Name) and elem(r).id == tn for r in rets):  # type: ignore[union-attr]
+            handed_back.add(tn)
+    for nm in sorted(helper_locals):
+        if nm in same_def or nm in handed_back:
+            continue
         if nm in caller_names:
             new = nm + "__" + h.name.strip("_")
             while new in caller_names:
@@ -142,13 +294,13 @@ def _expand(fi: FuncInfo, caller_names: set[str], st: ast.stmt, select: Callable
             while tgt in caller_names:
                 tgt += "_"
             rename[p] = tgt
-        asg = ast.Assign(targets=[ast.Name(id=tgt, ctx=ast.Store())], value=copy.deepcopy(arg), lineno=st.lineno, col_offset=st.col_offset, end_lineno=st.lineno, end_col_offset=st.col_offset)
+        asg = ast.Assign(targets=[ast.Name(id=tgt, ctx=ast.Store())], value=clone(arg), lineno=st.lineno, col_offset=st.col_offset, end_lineno=st.lineno, end_col_offset=st.col_offset)
         prologue.append(asg)
 
     class R(ast.NodeTransformer):
         def visit_Name(self, n: ast.Name):  # noqa: N802
             if n.id in subst and isinstance(n.ctx, ast.Load):
-                return ast.copy_location(copy.deepcopy(subst[n.id]), n)
+                return ast.copy_location(clone(subst[n.id]), n)
             if n.id in rename:
                 return ast.copy_location(ast.Name(id=rename[n.id], ctx=n.ctx), n)
             return n
@@ -162,47 +314,143 @@ def _expand(fi: FuncInfo, caller_names: set[str], st: ast.stmt, select: Callable
     body = [b for b in hn.body]
     if body and isinstance(body[0], ast.Expr) and isinstance(body[0].value, ast.Constant) and isinstance(body[0].value.value, str):
         body = body[1:]
-    ret_value: ast.AST | None = None
-    if body and isinstance(body[-1], ast.Return):
-        ret_value = body[-1].value
-        body = body[:-1]
-    new_body = [R().visit(b) for b in body]
+    def result(v: ast.AST | None, at: ast.stmt) -> list[ast.stmt]:
+        """what `return v` of the helper becomes at this call site"""
+        val = v if v is not None else ast.Constant(value=None)
+        res: list[ast.stmt] = []
+        if isinstance(st, ast.Return):
+            res.append(ast.Return(value=val))
+        elif targets:
+            if isinstance(st, ast.AnnAssign):
+                res.append(ast.AnnAssign(target=clone(st.target), annotation=st.annotation, value=val, simple=st.simple))
+            elif len(targets) == 1 and isinstance(targets[0], ast.Tuple) and isinstance(val, ast.Tuple) and len(val.elts) == len(targets[0].elts) and all(isinstance(t, ast.Name) for t in targets[0].elts) and not ({t.id for t in targets[0].elts} & {x.id for x in ast.walk(val) if isinstance(x, ast.Name)}):
+                # a, b = x, y  with targets that do not occur on the right: one plain assignment per element
+                for t, e in zip(targets[0].elts, val.elts):
+                    if isinstance(e, ast.Name) and e.id == t.id:
+                        continue  # handed back into the same local
+                    res.append(ast.Assign(targets=[clone(t)], value=e))
+            else:
+                res.append(ast.Assign(targets=clone(targets), value=val))
+        elif v is not None and not isinstance(v, (ast.Constant, ast.Name)):
+            res.append(ast.Expr(value=val))
+        for r in res:
+            ast.copy_location(r, at)
+        return res
+
+    renamed_body = [R().visit(b) for b in body]
+    try:
+        new_body, exits = eliminate_returns(renamed_body, result)
+    except _Unsupported:
+        return None
+    if not exits:
+        new_body += result(None, st) if (targets or isinstance(st, ast.Return)) else []
     out: list[ast.stmt] = prologue + new_body
-    if isinstance(st, ast.Return):
-        fin = ast.Return(value=R().visit(ret_value) if ret_value is not None else None)
-        ast.copy_location(fin, st)
-        out.append(fin)
-    elif targets:
-        val = R().visit(ret_value) if ret_value is not None else ast.Constant(value=None)
-        if isinstance(st, ast.AnnAssign):
-            fin: ast.stmt = ast.AnnAssign(target=st.target, annotation=st.annotation, value=val, simple=st.simple)
-            ast.copy_location(fin, st)
-            out.append(fin)
-        elif len(targets) == 1 and isinstance(targets[0], ast.Tuple) and isinstance(val, ast.Tuple) and len(val.elts) == len(targets[0].elts) and all(isinstance(t, ast.Name) for t in targets[0].elts) and not ({t.id for t in targets[0].elts} & {x.id for x in ast.walk(val) if isinstance(x, ast.Name)}):
-            # a, b = x, y  with targets that do not occur on the right: one plain assignment per element
-            for t, v in zip(targets[0].elts, val.elts):
-                fin = ast.Assign(targets=[t], value=v)
-                ast.copy_location(fin, st)
-                out.append(fin)
-        else:
-            fin = ast.Assign(targets=targets, value=val)
-            ast.copy_location(fin, st)
-            out.append(fin)
-    elif ret_value is not None and not isinstance(ret_value, (ast.Constant, ast.Name)):
-        e = ast.Expr(value=R().visit(ret_value))
-        ast.copy_location(e, st)
-        out.append(e)
     for o in out:
         ast.fix_missing_locations(o)
     caller_names |= set(rename.values()) | helper_locals
     return out or [ast.copy_location(ast.Pass(), st)]
 
 
+def _expression_helper(h: FuncInfo) -> ast.AST | None:
+    """the returned expression when the helper's body is just `return <expr>` (after the docstring)"""
+    if not inlinable(h.node):
+        return None
+    body = [b for b in h.node.body if not (isinstance(b, ast.Expr) and isinstance(b.value, ast.Constant) and isinstance(b.value.value, str))]  # type: ignore[attr-defined]
+    if len(body) == 1 and isinstance(body[0], ast.Return) and body[0].value is not None:
+        return body[0].value
+    return None
+
+
+def _bind_args(h: FuncInfo, call: ast.Call) -> dict[str, ast.AST] | None:
+    hn = h.node
+    is_method = h.cls is not None and not any(isinstance(d, ast.Name) and d.id == "staticmethod" for d in hn.decorator_list)  # type: ignore[attr-defined]
+    params = [a.arg for a in hn.args.args]  # type: ignore[attr-defined]
+    if is_method and params:
+        if params[0] not in ("self", "cls"):
+            return None
+        params = params[1:]
+    if hn.args.kwonlyargs or any(isinstance(a, ast.Starred) for a in call.args) or any(k.arg is None for k in call.keywords) or len(call.args) > len(params):  # type: ignore[attr-defined]
+        return None
+    bound: dict[str, ast.AST] = dict(zip(params, call.args))
+    for k in call.keywords:
+        if k.arg not in params or k.arg in bound:
+            return None
+        bound[k.arg] = k.value  # type: ignore[index]
+    defaults = dict(zip(reversed([a.arg for a in hn.args.args]), reversed(hn.args.defaults)))  # type: ignore[attr-defined]
+    for p in params:
+        if p not in bound:
+            if p not in defaults:
+                return None
+            bound[p] = defaults[p]
+    return bound
+
+
+class _ExprInliner(ast.NodeTransformer):
+    """replaces calls of one-expression helpers by that expression (parameters substituted), anywhere in an expression; and
+    hoists calls of other selected helpers out of the arguments of a simple statement into a temporary bound just before it
+    (`x.extend(h(a))` -> `_h1 = h(a); x.extend(_h1)`), so that the statement-level inliner can expand them"""
+
+    def __init__(self, fi: FuncInfo, sel, names: set[str], inlined: list[str]):
+        self.fi, self.sel, self.names, self.inlined = fi, sel, names, inlined
+        self.hoisted: list[ast.stmt] = []
+        self.stmt: ast.stmt | None = None
+        self.conditional = 0
+        self.changed = False
+
+    def visit_Lambda(self, n):  # noqa: N802
+        return n
+
+    def _cond(self, n):
+        self.conditional += 1
+        try:
+            return self.generic_visit(n)
+        finally:
+            self.conditional -= 1
+
+    visit_ListComp = visit_SetComp = visit_DictComp = visit_GeneratorExp = visit_IfExp = visit_BoolOp = _cond  # noqa: N815
+
+    def visit_Call(self, n: ast.Call):  # noqa: N802
+        self.generic_visit(n)
+        h = _helper_of(self.fi, n)
+        if h is None or not self.sel(h, n, self.stmt):
+            return n
+        expr = _expression_helper(h)
+        bound = _bind_args(h, n)
+        if bound is None:
+            return n
+        if expr is not None:
+            uses = {p: sum(1 for x in ast.walk(expr) if isinstance(x, ast.Name) and x.id == p) for p in bound}
+            if all(uses[p] <= 1 or not any(isinstance(x, ast.Call) for x in ast.walk(a)) for p, a in bound.items()) and not ({x.id for x in ast.walk(expr) if isinstance(x, ast.Name) and isinstance(x.ctx, ast.Store)}):
+                env = {p: a for p, a in bound.items()}
+
+                class S(ast.NodeTransformer):
+                    def visit_Name(self, x: ast.Name):  # noqa: N802
+                        return ast.copy_location(clone(env[x.id]), x) if isinstance(x.ctx, ast.Load) and x.id in env else x
+
+                self.inlined.append(h.qualname)
+                self.changed = True
+                return ast.copy_location(S().visit(clone(expr)), n)
+            return n
+        # hoist: only out of unconditional positions of a simple statement, and never the statement's own top-level call
+        if self.conditional or self.stmt is None or not isinstance(self.stmt, (ast.Expr, ast.Assign, ast.AnnAssign, ast.AugAssign, ast.Return)) or getattr(self.stmt, "value", None) is n:
+            return n
+        tmp = f"_{h.name.strip('_')}_result"
+        while tmp in self.names:
+            tmp += "_"
+        self.names.add(tmp)
+        asg = ast.Assign(targets=[ast.Name(id=tmp, ctx=ast.Store())], value=n)
+        ast.copy_location(asg, self.stmt)
+        ast.fix_missing_locations(asg)
+        self.hoisted.append(asg)
+        self.changed = True
+        return ast.copy_location(ast.Name(id=tmp, ctx=ast.Load()), n)
+
+
 def inline_helpers(fi: FuncInfo, select: Callable[[FuncInfo, ast.Call, ast.stmt], bool] | None = None, rounds: int = 3) -> tuple[FuncInfo, list[str]]:
     """copy of `fi` with selected single-exit helpers of the same class / module inlined at statement position; also returns
     the qualified names of the helpers that were inlined (for the evidence)"""
     sel = select or (lambda h, c, st: True)
-    node = copy.deepcopy(fi.node)
+    node = clone(fi.node)
     inlined: list[str] = []
     view = replace(fi, node=node)
     for _ in range(rounds):
@@ -213,6 +461,31 @@ def inline_helpers(fi: FuncInfo, select: Callable[[FuncInfo, ast.Call, ast.stmt]
             nonlocal changed
             out: list[ast.stmt] = []
             for st in stmts:
+                # expression-position helpers first: substitute one-expression helpers, hoist the others in front of the statement
+                if isinstance(st, (ast.Expr, ast.Assign, ast.AnnAssign, ast.AugAssign, ast.Return, ast.If, ast.While)):
+                    ei = _ExprInliner(view, sel, names, inlined)
+                    ei.stmt = st
+                    if isinstance(st, (ast.If, ast.While)):
+                        ei.stmt = None  # (no hoisting out of a test: a loop test is evaluated repeatedly)
+                        st.test = ei.visit(st.test)
+                    else:
+                        for fld in ("value", "targets", "target"):
+                            v = getattr(st, fld, None)
+                            if isinstance(v, ast.AST):
+                                setattr(st, fld, ei.visit(v))
+                            elif isinstance(v, list):
+                                setattr(st, fld, [ei.visit(x) for x in v])
+                    if ei.changed:
+                        changed = True
+                        ast.fix_missing_locations(st)
+                    for hst in ei.hoisted:
+                        exp_h = _expand(view, names, hst, lambda h, c, s: sel(h, c, s))
+                        if exp_h is not None:
+                            hh = _helper_of(view, hst.value)  # type: ignore[attr-defined]
+                            inlined.append(hh.qualname if hh else "?")
+                            out.extend(exp_h)
+                        else:
+                            out.append(hst)
                 exp = _expand(view, names, st, lambda h, c, s: sel(h, c, s))
                 if exp is not None:
                     h = _helper_of(view, st.value)  # type: ignore[attr-defined]
